@@ -32,7 +32,8 @@ package simplefixgo
 //@ ghost callRet map
 //@ ghost outN int
 //@ ghost outAt smap
-//@ chanlog DefaultHandler.out outN outAt
+//@ ghost outR int
+//@ chanlog DefaultHandler.out outN outAt outR
 //@ field[C20] HandlerPool.handlers: guarded_by(mu)
 //@ unscoped[C20] (*HandlerPool).Remove, (*HandlerPool).free, (*DefaultHandler).RemoveIncomingHandler, (*DefaultHandler).RemoveOutgoingHandler
 
@@ -132,7 +133,10 @@ package simplefixgo
 //@ func (h *DefaultHandler) serve(msg []byte) (err error)
 //@   requires h != nil && h.incomingHandlers.HandlerPool != nil
 //@   safety[C11]
-//@   modifies callN, callAt, callRet
+//@   modifies callN, callAt, callRet, srvN, srvAt
+//@   epilogue srvAt = upd(srvAt, srvN, string(msg))
+//@   epilogue srvN = srvN + 1
+//@   ensures[C04] @logged srvN == old(srvN) + 1 && srvAt == upd(old(srvAt), old(srvN), string(msg))
 //@   forall j int
 //@   call Range#1: witness c1 = callN
 //@   call Range#2:
@@ -162,3 +166,266 @@ package simplefixgo
 //@ field[C20] DefaultHandler.outgoingHandlers: immutable_after(NewAcceptorHandler, NewInitiatorHandler)
 //@ field[C20] DefaultHandler.eventHandlers: immutable_after(NewAcceptorHandler, NewInitiatorHandler)
 //@ field[C20] HandlerPool.counter: immutable_after(NewHandlerPool)
+
+// ---- connection framing (C04, C18) -----------------------------------------------------------
+// wireIn(x): every byte the peer ever writes on connection x, in order (a prophecy:
+// the reader sees it piecewise). rdPos(r): how many of them the buffered reader r
+// has returned so far. The two bufio contracts are assumptions about the standard
+// library (trusted base): ReadBytes/ReadSlice return consecutive pieces of the
+// stream, however the transport chunked them; without an error a piece ends with
+// the first delimiter at or after the previous position.
+//@ ghostfield wireIn string
+//@ ghostfield rdPos int
+//@ extern bufio.NewReader(rd io.Reader) (r *bufio.Reader)
+//@   ensures r != nil && fresh(r) && wireIn(r) == wireIn(rd) && rdPos(r) == 0
+//@ extern (r *bufio.Reader) ReadBytes(delim byte) (line []byte, err error)
+//@   requires r != nil
+//@   modifies rdPos(r)
+//@   ensures rdPos(r) == old(rdPos(r)) + len(line) && rdPos(r) <= len(wireIn(r)) && wireIn(r) == old(wireIn(r))
+//@   ensures string(line) == sub(wireIn(r), old(rdPos(r)), rdPos(r))
+//@   ensures imp(err == nil, len(line) >= 1 && code(string(line), len(line) - 1) == delim && !contains(sub(string(line), 0, len(line) - 1), chr(delim)))
+//@ extern (r *bufio.Reader) ReadSlice(delim byte) (line []byte, err error)
+//@   requires r != nil
+//@   modifies rdPos(r)
+//@   ensures rdPos(r) == old(rdPos(r)) + len(line) && rdPos(r) <= len(wireIn(r)) && wireIn(r) == old(wireIn(r))
+//@   ensures string(line) == sub(wireIn(r), old(rdPos(r)), rdPos(r))
+//@   ensures imp(err == nil, len(line) >= 1 && code(string(line), len(line) - 1) == delim && !contains(sub(string(line), 0, len(line) - 1), chr(delim)))
+
+// rdN/rdAt: the messages runReader handed to Conn.reader, in order; cut: where each
+// of them starts in the stream (cut[k+1] is where message k ends).
+//@ field Conn.cancel: callback(pure)
+//@ ghost rdN int
+//@ ghost rdAt smap
+//@ ghost rdR int
+//@ ghost cut map
+//@ chanlog Conn.reader rdN rdAt rdR
+
+// runReader: message k is exactly the stream between cut[k] and cut[k+1]; the cuts
+// are consecutive (nothing skipped, nothing delivered twice), every message ends
+// with the first field that starts at a field boundary with the CheckSum tag, and
+// a buffer that has been handed over is never written again.
+//@ func (c *Conn) runReader() (err error)
+//@   requires c != nil && c.conn != nil && c.ctx != nil
+//@   requires[C04] @freshconn rdN == 0 && sel(cut, 0) == 0
+//@   safety[C04,C11]
+//@   handover[C04]
+//@   modifies rdN, rdAt, cut
+//@   forall j int
+//@   forall p int
+//@   call NewReader#1: witness r = ret
+//@   call send#1:
+//@     assert[C04,C18] @eom hasPrefix(from(wireIn(r), rdPos(r) - len(buff)), "10=") && (rdPos(r) - len(buff) == 0 || code(wireIn(r), rdPos(r) - len(buff) - 1) == 1)
+//@     assert[C04] @whole string(arg1) == sub(wireIn(r), sel(cut, rdN - 1), rdPos(r))
+//@     set cut = upd(cut, rdN, rdPos(r))
+//@   loop 1:
+//@     modifies rdPos(r)
+//@     invariant[C04] @pos 0 <= sel(cut, rdN) && sel(cut, rdN) <= rdPos(r) && rdPos(r) <= len(wireIn(r)) && rdN >= 0
+//@     invariant[C04] @buffer string(msg) == sub(wireIn(r), sel(cut, rdN), rdPos(r))
+//@     invariant[C04] @boundary rdPos(r) == 0 || code(wireIn(r), rdPos(r) - 1) == 1
+//@     invariant[C04] @delivered imp(0 <= j && j < rdN, sel(rdAt, j) == sub(wireIn(r), sel(cut, j), sel(cut, j + 1)))
+//@     invariant[C04] @consecutive imp(0 <= j && j < rdN, sel(cut, j) <= sel(cut, j + 1))
+//@     invariant[C04,C18] @nopending imp(sel(cut, rdN) <= p && p < rdPos(r) && (p == 0 || code(wireIn(r), p - 1) == 1), !hasPrefix(from(wireIn(r), p), "10="))
+
+// wireOut(x): every byte the library has written on connection x so far, in order.
+// The contract of net.Conn.Write is an assumption about the transport (trusted base):
+// a write without error has appended exactly the given bytes.
+//@ ghostfield wireOut string
+//@ interface net.Conn assumed
+//@   method Write(b []byte) (n int, err error):
+//@     modifies wireOut(self)
+//@     ensures imp(err == nil, n == len(b) && wireOut(self) == cat(old(wireOut(self)), string(b)))
+//@   method SetWriteDeadline(t time.Time) (err error):
+//@     pure
+//@   method Close() (err error):
+//@     pure
+
+// Write puts the message on the stream whole and exactly once, or reports an error;
+// a closed connection is not written to at all.
+//@ func (c *Conn) Write(msg []byte) (err error)
+//@   requires c != nil && c.conn != nil && c.ctx != nil
+//@   safety[C04]
+//@   modifies wireOut(c.conn)
+//@   call Write#1:
+//@     assert[C04] @samebytes string(arg0) == string(msg)
+//@   ensures[C04] @whole imp(err == nil, wireOut(c.conn) == cat(old(wireOut(c.conn)), string(msg)))
+//@   ensures[C04] @closed imp(err == ErrConnClosed, wireOut(c.conn) == old(wireOut(c.conn)))
+
+// ---- hand-off between the socket reader, the handler and the socket writer (C04) --------------
+// inN/inAt/inR: the messages put on DefaultHandler.incoming and how many of them the
+// handler loop has taken; srvN/srvAt: the messages DefaultHandler.serve dispatched;
+// wcut: where each outbound message starts in the written stream.
+//@ ghost inN int
+//@ ghost inAt smap
+//@ ghost inR int
+//@ ghost srvN int
+//@ ghost srvAt smap
+//@ ghost wcut map
+//@ chanlog DefaultHandler.incoming inN inAt inR
+
+// What the connection loops rely on from a handler: ServeIncoming enqueues exactly the
+// given message, once, behind the earlier ones; Outgoing is the queue Send fills.
+//@ interface AcceptorHandler
+//@   implementations *DefaultHandler
+//@   method ServeIncoming(msg []byte):
+//@     modifies inN, inAt
+//@     ensures[C04] @enqueued inN == old(inN) + 1 && inAt == upd(old(inAt), old(inN), string(msg))
+//@   method Outgoing() (ch <-chan []byte):
+//@     pure
+//@     yields[C04] log outN
+//@ interface InitiatorHandler
+//@   implementations *DefaultHandler
+//@   method Stop():
+//@     pure
+//@   method ServeIncoming(msg []byte):
+//@     modifies inN, inAt
+//@     ensures[C04] @enqueued inN == old(inN) + 1 && inAt == upd(old(inAt), old(inN), string(msg))
+//@   method Outgoing() (ch <-chan []byte):
+//@     pure
+//@     yields[C04] log outN
+
+// The writer loop of an accepted connection: the outbound stream is what it was,
+// followed by the messages taken from the handler's queue, in queue order, each whole.
+//@ closure (*Acceptor).serve#writer () (err error)
+//@   anchor Write Outgoing
+//@   callback pure
+//@   requires conn != nil && conn.conn != nil && conn.ctx != nil && handler != nil && ctx != nil
+//@   requires[C04] @ghostinit sel(wcut, outR) == len(wireOut(conn.conn))
+//@   modifies outR, wcut, wireOut(conn.conn)
+//@   forall j int
+//@   call Write#1:
+//@     assert[C04] @next string(arg1) == sel(outAt, outR - 1)
+//@     set wcut = upd(wcut, outR, len(wireOut(conn.conn)))
+//@   loop 1:
+//@     modifies wireOut(conn.conn)
+//@     invariant[C04] @end sel(wcut, outR) == len(wireOut(conn.conn)) && outR >= old(outR)
+//@     invariant[C04] @written imp(old(outR) <= j && j < outR, sel(wcut, j) <= sel(wcut, j + 1) && sel(wcut, j + 1) <= len(wireOut(conn.conn)) && sub(wireOut(conn.conn), sel(wcut, j), sel(wcut, j + 1)) == sel(outAt, j))
+//@     invariant[C04] @prefix hasPrefix(wireOut(conn.conn), old(wireOut(conn.conn)))
+
+// The reader loop of an accepted connection hands every message the socket reader
+// delivered to the handler, once, in order, unchanged.
+//@ closure (*Acceptor).serve#incoming () (err error)
+//@   anchor ServeIncoming
+//@   callback pure
+//@   requires conn != nil && handler != nil && ctx != nil
+//@   modifies rdR, inN, inAt
+//@   forall j int
+//@   call ServeIncoming#1:
+//@     assert[C04] @same string(arg0) == sel(rdAt, rdR - 1)
+//@   loop 1:
+//@     invariant[C04] @count inN - old(inN) == rdR - old(rdR) && rdR >= old(rdR)
+//@     invariant[C04] @inorder imp(0 <= j && j < rdR - old(rdR), sel(inAt, old(inN) + j) == sel(rdAt, old(rdR) + j))
+//@     invariant[C04] @earlier imp(j < old(inN), sel(inAt, j) == old(sel(inAt, j)))
+
+// Closing and stopping cancel contexts and close the socket; they touch none of the
+// message queues or streams.
+//@ field DefaultHandler.cancel: callback(pure)
+//@ field Initiator.cancel: callback(pure)
+//@ func (c *Conn) Close()
+//@   requires c != nil
+//@   safety[C04]
+//@   pure
+//@ func (c *Initiator) Close()
+//@   requires c != nil && c.conn != nil
+//@   safety[C04]
+//@   pure
+
+// The same two loops on the initiating side.
+//@ closure (*Initiator).Serve#writer () (err error)
+//@   anchor Write Outgoing
+//@   callback pure
+//@   requires c != nil && c.conn != nil && c.conn.conn != nil && c.conn.ctx != nil && c.handler != nil && c.ctx != nil
+//@   requires[C04] @ghostinit sel(wcut, outR) == len(wireOut(c.conn.conn))
+//@   modifies outR, wcut, wireOut(c.conn.conn)
+//@   forall j int
+//@   call Write#1:
+//@     assert[C04] @next string(arg1) == sel(outAt, outR - 1)
+//@     set wcut = upd(wcut, outR, len(wireOut(c.conn.conn)))
+//@   loop 1:
+//@     modifies wireOut(c.conn.conn)
+//@     invariant[C04] @end sel(wcut, outR) == len(wireOut(c.conn.conn)) && outR >= old(outR)
+//@     invariant[C04] @written imp(old(outR) <= j && j < outR, sel(wcut, j) <= sel(wcut, j + 1) && sel(wcut, j + 1) <= len(wireOut(c.conn.conn)) && sub(wireOut(c.conn.conn), sel(wcut, j), sel(wcut, j + 1)) == sel(outAt, j))
+//@     invariant[C04] @prefix hasPrefix(wireOut(c.conn.conn), old(wireOut(c.conn.conn)))
+
+//@ closure (*Initiator).Serve#incoming () (err error)
+//@   anchor ServeIncoming
+//@   callback pure
+//@   requires c != nil && c.conn != nil && c.conn.conn != nil && c.handler != nil && c.ctx != nil
+//@   modifies rdR, inN, inAt
+//@   forall j int
+//@   call ServeIncoming#1:
+//@     assert[C04] @same string(arg0) == sel(rdAt, rdR - 1)
+//@   loop 1:
+//@     invariant[C04] @count inN - old(inN) == rdR - old(rdR) && rdR >= old(rdR)
+//@     invariant[C04] @inorder imp(0 <= j && j < rdR - old(rdR), sel(inAt, old(inN) + j) == sel(rdAt, old(rdR) + j))
+//@     invariant[C04] @earlier imp(j < old(inN), sel(inAt, j) == old(sel(inAt, j)))
+
+// The handler loop takes the queued messages one at a time, in queue order, and
+// dispatches each of them before it takes the next one (also while draining the
+// queue after a stop or an error).
+//@ func (h *DefaultHandler) Run() (err error)
+//@   requires h != nil && h.ctx != nil && h.incomingHandlers.HandlerPool != nil && h.eventHandlers != nil
+//@   callback pure
+//@   modifies callN, callAt, callRet, srvN, srvAt, inR, trigN, trigAt, routerStopped, timersStarted
+//@   forall j int
+//@   call serve#1:
+//@     assert[C04] @same string(arg1) == sel(inAt, inR - 1)
+//@   call processRemainingIncoming#1:
+//@     inst j = j - (inR - old(inR))
+//@     inst j = old(srvN) + j
+//@   call processRemainingIncoming#2:
+//@     inst j = j - (inR - old(inR))
+//@     inst j = old(srvN) + j
+//@   ensures[C04] @count srvN - old(srvN) == inR - old(inR)
+//@   ensures[C04] @inorder imp(0 <= j && j < inR - old(inR), sel(srvAt, old(srvN) + j) == sel(inAt, old(inR) + j))
+//@   loop 1:
+//@     invariant[C04] @count srvN - old(srvN) == inR - old(inR) && inR >= old(inR)
+//@     invariant[C04] @inorder imp(0 <= j && j < inR - old(inR), sel(srvAt, old(srvN) + j) == sel(inAt, old(inR) + j))
+//@     invariant[C04] @earlier imp(j < old(srvN), sel(srvAt, j) == old(sel(srvAt, j)))
+
+//@ func (h *DefaultHandler) processRemainingIncoming()
+//@   requires h != nil && h.incomingHandlers.HandlerPool != nil
+//@   modifies callN, callAt, callRet, srvN, srvAt, inR
+//@   forall j int
+//@   call serve#1:
+//@     assert[C04] @same string(arg1) == sel(inAt, inR - 1)
+//@   ensures[C04] @count srvN - old(srvN) == inR - old(inR) && inR >= old(inR)
+//@   ensures[C04] @inorder imp(0 <= j && j < inR - old(inR), sel(srvAt, old(srvN) + j) == sel(inAt, old(inR) + j))
+//@   ensures[C04] @earlier imp(j < old(srvN), sel(srvAt, j) == old(sel(srvAt, j)))
+//@   loop 1:
+//@     invariant[C04] @count srvN - old(srvN) == inR - old(inR) && inR >= old(inR)
+//@     invariant[C04] @inorder imp(0 <= j && j < inR - old(inR), sel(srvAt, old(srvN) + j) == sel(inAt, old(inR) + j))
+//@     invariant[C04] @earlier imp(j < old(srvN), sel(srvAt, j) == old(sel(srvAt, j)))
+
+//@ func (h *DefaultHandler) processRemainingErrors()
+//@   pure
+//@   trusted
+
+// ---- one connection, one set of queues (C04: no cross-talk between connections) ---------------
+// Every Conn and every handler is built with queues of its own; the acceptor builds a
+// new Conn around the accepted socket and asks the factory for a new handler for each
+// accepted connection.
+//@ func NewConn(ctx context.Context, conn net.Conn, msgBuffSize int, writeDeadline time.Duration) (c *Conn)
+//@   ensures[C04] @own c != nil && fresh(c) && fresh(c.reader) && fresh(c.writer) && c.reader != c.writer
+//@   ensures[C04] @socket c.conn == conn && c.ctx != nil
+
+//@ func NewAcceptorHandler(ctx context.Context, msgTypeTag string, bufferSize int) (sh *DefaultHandler)
+//@   ensures[C04] @own sh != nil && fresh(sh) && fresh(sh.out) && fresh(sh.incoming) && fresh(sh.errors) && sh.out != sh.incoming
+//@   ensures[C04,C19] @pools fresh(sh.incomingHandlers.HandlerPool) && fresh(sh.outgoingHandlers.HandlerPool) && sh.incomingHandlers.HandlerPool != sh.outgoingHandlers.HandlerPool && sh.msgTypeTag == msgTypeTag
+
+//@ func NewInitiatorHandler(ctx context.Context, msgTypeTag string, bufferSize int) (sh *DefaultHandler)
+//@   ensures[C04] @own sh != nil && fresh(sh) && fresh(sh.out) && fresh(sh.incoming) && fresh(sh.errors) && sh.out != sh.incoming
+//@   ensures[C04,C19] @pools fresh(sh.incomingHandlers.HandlerPool) && fresh(sh.outgoingHandlers.HandlerPool) && sh.incomingHandlers.HandlerPool != sh.outgoingHandlers.HandlerPool && sh.msgTypeTag == msgTypeTag
+
+//@ interface HandlerFactory
+//@   implementations *AcceptorHandlerFactory
+//@   method MakeHandler(ctx context.Context) (res AcceptorHandler):
+//@     ensures[C04] @perconnection res != nil && fresh(res)
+
+//@ func (s *Acceptor) serve(parentCtx context.Context, netConn net.Conn)
+//@   requires s != nil && s.factory != nil && netConn != nil
+//@   callback pure
+//@   call NewConn#1:
+//@     witness conn = ret
+//@     assert[C04] @thissocket arg1 == netConn && ret.conn == netConn && fresh(ret) && fresh(ret.reader)
+//@   call MakeHandler#1:
+//@     assert[C04] @newhandler ret != nil && fresh(ret)
